@@ -381,9 +381,10 @@ impl AsmLine {
             Label::Unfilled(_) => panic!("Tried to offset unfilled label"),
         };
         let (offset, _) = label_pos.overflowing_sub(self.line);
-        let offset = (offset as i16) - 1;
+        // Wider than 16 bits, so that `- 1` and the range test cannot overflow
+        let offset = (offset as i16) as i32 - 1;
         // Must fit in specified offset bits
-        if offset.abs() > 2i16.pow(bits - 1) - if offset > 0 { 1 } else { 0 } {
+        if offset < -(1i32 << (bits - 1)) || offset > (1i32 << (bits - 1)) - 1 {
             bail!(
                 severity = Severity::Error,
                 r#"Difference between label and label reference is too large: at line {}, referencing line {}
